@@ -835,8 +835,17 @@ class Workspace(_ChannelSummaryMixin, dict):
                                 for x in parset_spec['paramset'].suggested_bounds
                             ],
                             "inits": parset_spec['paramset'].suggested_init,
-                            "fixed": parset_spec['paramset'].suggested_fixed_as_bool,
                             "name": parset_name,
+                            # 'fixed' is a single flag per parameter set: a set that is only partly fixed (e.g. a
+                            # bin without MC uncertainty) is re-derived from the channel data when the model is rebuilt
+                            **(
+                                {"fixed": parset_spec['paramset'].suggested_fixed[0]}
+                                if all(
+                                    fixed == parset_spec['paramset'].suggested_fixed[0]
+                                    for fixed in parset_spec['paramset'].suggested_fixed
+                                )
+                                else {}
+                            ),
                             # constraint settings (e.g. the lumi central value and width) belong to the model too
                             **{
                                 attr: list(getattr(parset_spec['paramset'], attr))
